@@ -430,7 +430,8 @@ def r06_4_5(ctx: Ctx) -> None:
     ctx.ob("R06.5", REC, func, qual, "areas sorted", ok, "the sweep runs over the areas in sorted order", form="")
     # the closing step of the ring: an overlap test between the first and the last section of the swept list
     section_list = next((txt(c.func.value) for c in calls(func) if last_attr(c) == "append" and isinstance(c.func, ast.Attribute)
-                         and enclosing_loops(c, stop=func) and any(lp is loop for lp in enclosing_loops(c, stop=func))), "sections")
+                         and c.args and isinstance(c.args[0], ast.Tuple)
+                         and any(lp is loop for lp in enclosing_loops(c, stop=func))), "sections")
     end_of = {}
     for node in walk_local(func):
         if isinstance(node, ast.Assign) and isinstance(node.value, ast.Subscript) and txt(node.value.value) == section_list \
